@@ -113,8 +113,8 @@ def fb(ctx):
         if anyc:
             ae = cf.expr_of_call(anyc[0]['term'])
             pc = ae[2][1]
-            if pc[0] == 'closure' and pc[1] in P.fns:
-                pf = P.fns[pc[1]]
+            pf = predicate_fn(P, pc)
+            if pf is not None:
                 # matches!(a, ConstSelf | MutSelf)
                 sws = [s for s in pf.switches() if s['cond'][0] == 'discr']
                 if sws:
@@ -157,7 +157,7 @@ def fb(ctx):
     ctx.ob(['C17', 'C05'], 'R-SLP', 'FB|visibility-doc-name', bool(okv and okd and okn), 'Function.visibility, .doc and .name come from the grammar function\'s own visibility, attributes and name: %s / %s / %s' % (
         show(F['visibility'])[:60], show(F['doc'])[:80], show(F['name'])[:40]), where)
     # arguments: map over the grammar arguments in order, each variant to its counterpart
-    args = F['arguments']
+    args = seq_chain(f, F['arguments'])
     u = unwrap_all(args)
     oka = is_call(u, 'Iterator::collect') and is_call(u[2][0], 'Iterator::map') and is_call(u[2][0][2][0], 'slice::<impl [T]>::iter') and \
         strip(strip(u[2][0][2][0][2][0])) == ('field', GA, 'arguments') or (is_call(u, 'Iterator::collect') and any(strip(x) == ('field', GA, 'arguments') for x in walk(u)) and not any(
@@ -343,6 +343,36 @@ def enum(ctx):
                 for (bi, si, kind, payload, span) in f.defs()[di[1]]:
                     e = f.expr_of_def((bi, si, kind, payload, span))
                     if e == d and pushes and f.dominates(pushes[0]['block'], bi):
+                        okdi = True
+            # or: the length is taken before the push of the same iteration (`let i = fields.len(); fields.push(..); .. Some(i)`)
+            if is_call(v, 'Vec::<T, A>::len') and strip(v[2][0]) == fields and pushes:
+                L = innermost_loop(f, pushes[0]['block'])
+                for (bi, si, kind, payload, span) in f.defs()[di[1]]:
+                    if f.expr_of_def((bi, si, kind, payload, span)) != d or kind != 'rv':
+                        continue
+                    hops = 0
+                    while payload.get('k') == 'Use' and hops < 5:
+                        hops += 1
+                        pl = (payload.get('op') or {}).get('place') or {}
+                        ds_ = f.defs().get(pl.get('local'), [])
+                        if pl.get('proj') or len(ds_) != 1 or ds_[0][2] != 'rv':
+                            break
+                        payload = ds_[0][3]
+                    if not payload.get('ops'):
+                        continue
+                    pl = payload['ops'][0].get('place') or {}
+                    l2 = pl.get('local')
+                    if l2 is None or pl.get('proj') or len(f.defs().get(l2, [])) != 1:
+                        continue
+                    hops = 0
+                    while hops < 5 and f.defs()[l2][0][2] == 'rv' and f.defs()[l2][0][3].get('k') == 'Use':
+                        hops += 1
+                        p2 = (f.defs()[l2][0][3].get('op') or {}).get('place') or {}
+                        if p2.get('proj') or len(f.defs().get(p2.get('local'), [])) != 1:
+                            break
+                        l2 = p2['local']
+                    lb = f.defs()[l2][0][0]
+                    if L and lb in L[1] and f.dominates(lb, pushes[0]['block']) and f.dominates(pushes[0]['block'], bi) and len(pushes) == 1:
                         okdi = True
     ctx.ob(['C08'], 'R-EXPR', 'EB|default-index', okdi, 'the default index is the index of the variant just pushed (len − 1 after the push): %s' % [show(d)[:80] for d in ddefs], where)
     # G17 range check (absent today)
